@@ -12,7 +12,7 @@ ASSUMPTIONS = c01.ASSUMPTIONS + ["record timestamps are set 30 days in the past 
 
 
 def run(ctx):
-    res = c01.run_mode(ctx, MODE, 120 if ctx.tier == "quick" else 4000, PID, oracle=gcoracle.c17_oracle)
+    res = c01.run_mode(ctx, MODE, 120 if ctx.tier == "quick" else 1500, PID, oracle=gcoracle.c17_oracle)
     rs = sc.run_sched(ctx, "double", 0, ctx.seed)
     for r in rs:
         res["spec_violations"] += sc.scenario_oracle(r)
